@@ -360,6 +360,12 @@ func (e *Engine) Replay(o *Obligation, model map[string]string, scratch string) 
 			if rc.inst.Var != "" {
 				lit = replaceIdent(lit, rc.inst.Var, "("+rc.inst.Label+")")
 			}
+			// package qualifiers used by the bound expression (riscv.AADD, loong64.AADDI_W) need their import
+			for _, imp := range pkg.Imports() {
+				if strings.Contains(lit, imp.Name()+".") {
+					g.imports[imp.Path()] = imp.Name()
+				}
+			}
 		} else {
 			lit, ok = g.lit(p.Name, p.T, vals, pkg)
 		}
